@@ -3,10 +3,12 @@
 package sim
 
 import (
+	"bytes"
 	"context"
 	"crypto/sha256"
 	"encoding/hex"
 	"fmt"
+	"io"
 	"sort"
 	"strings"
 	"sync"
@@ -53,6 +55,10 @@ type ModelBlobAccess struct {
 	PostHook func(op string, digests []digest.Digest)
 	// AC makes Get return Protobuf-backed ActionResult buffers.
 	AC bool
+	// Streaming makes Get return reader-backed CAS buffers (as local stores on block devices and gRPC
+	// backends do) instead of byte-slice-backed ones: background tasks attached to such a buffer run
+	// while the consumer reads, not inside the call that attached them.
+	Streaming bool
 
 	mu    sync.Mutex
 	data  map[string][]byte
@@ -155,6 +161,9 @@ func (m *ModelBlobAccess) GetCapabilities(ctx context.Context, instanceName dige
 func (m *ModelBlobAccess) newBuffer(d digest.Digest, data []byte) buffer.Buffer {
 	if m.AC {
 		return buffer.NewProtoBufferFromByteSlice(&remoteexecution.ActionResult{}, data, buffer.BackendProvided(buffer.Irreparable(d)))
+	}
+	if m.Streaming {
+		return buffer.NewCASBufferFromReader(d, io.NopCloser(bytes.NewReader(data)), buffer.BackendProvided(buffer.Irreparable(d)))
 	}
 	return buffer.NewCASBufferFromByteSlice(d, data, buffer.BackendProvided(buffer.Irreparable(d)))
 }
